@@ -5,6 +5,8 @@
 //!   ctype  none | v<idx> (fixed variant) | s<hex> (ContentType::Str) | S<hex> (ContentType::String)
 //!   body   static:<data> | str:<data> | vec:<data> | file:<declared>:<data> | tmp:<declared>:<data>
 //!          | filemissing:<declared> | filedir:<declared> | tmpmissing:<declared>
+//!          | fileshrink:<declared>:<data>:<keep>  (a file holding <data> that is cut to <keep> bytes in flight: when
+//!            the writer of the `ser` surface gets its first write call, i.e. after every check made before the head)
 //!          | es:<hex>,<hex>,.. (event stream, one Event::Message per item, 'e' = empty text, B<n> = n bytes 'a', senders dropped before the write)
 //!          | drop | getbody (non-Normal response kinds)
 #![allow(dead_code)]
@@ -45,6 +47,8 @@ pub struct Built {
     pub response: Response,
     /// keeps the temp dir (and with it File bodies) alive until the case is over
     pub dir: Option<temp_dir::TempDir>,
+    /// fileshrink: the body file and the length it is cut to once the first byte of the response went out
+    pub shrink: Option<(PathBuf, u64)>,
 }
 
 /// Parses the response part of a case; returns the response and the number of tokens consumed.
@@ -75,6 +79,7 @@ pub fn build(toks: &[&str]) -> (Built, usize) {
     let body = toks[i];
     i += 1;
     let mut dir = None;
+    let mut shrink = None;
     let (kind, arg) = body.split_once(':').unwrap_or((body, ""));
     let mut mkfile = |data: &[u8]| -> PathBuf {
         let d = temp_dir::TempDir::new().unwrap();
@@ -99,6 +104,12 @@ pub fn build(toks: &[&str]) -> (Built, usize) {
             let (declared, data) = arg.split_once(':').unwrap();
             let tf = temp_file::TempFile::new().unwrap().with_contents(&data_of_tok(data)).unwrap();
             response.body = ResponseBody::TempFile(tf, declared.parse().unwrap());
+        }
+        "fileshrink" => {
+            let parts: Vec<&str> = arg.split(':').collect();
+            let p = mkfile(&data_of_tok(parts[1]));
+            shrink = Some((p.clone(), parts[2].parse().unwrap()));
+            response.body = ResponseBody::File(p, parts[0].parse().unwrap());
         }
         "filemissing" => {
             let p = mkfile(b"");
@@ -135,7 +146,7 @@ pub fn build(toks: &[&str]) -> (Built, usize) {
         "getbody" => response.kind = ResponseKind::GetBodyAndReprocess(100),
         _ => panic!("bad body kind"),
     }
-    (Built { response, dir }, i)
+    (Built { response, dir, shrink }, i)
 }
 
 pub fn err_name(e: &servlin::internal::HttpError) -> String {
